@@ -117,11 +117,11 @@ def cases(tier, seed, i, n):
         for vi, (fam, spec, exp) in enumerate(vs):
             for seg in ('one', 'bytewise', 'frames-same-read'):
                 yield dict(kind='reply', fam=fam, spec=spec, exp=exp, seg=seg, cut=None)
-            ncut = 6 if tier == 'quick' else 40
+            ncut = 10 if tier == 'quick' else 600
             for _ in range(ncut):
                 yield dict(kind='reply', fam=fam, spec=spec, exp=exp, seg='cuts',
                            cut=sorted(rnd.sample(range(1, 160), rnd.choice((1, 2, 3)))))
-        for r in range(200 if tier == 'quick' else 5000):
+        for r in range(300 if tier == 'quick' else 60000):
             yield dict(kind='prevkey', r=r)
         # every single cut of one correct and one wrong reply
         for c in range(1, 140):
